@@ -2174,11 +2174,11 @@ class Builder:
         loop_register: Optional[Union[operand.Register, str]] = None,
     ) -> Iterator[operand.Register]:
         """Build commands for a 'loop' context and return the context object."""
+        loop_register_result = self._loop_get_register(loop_register, activate=True)
+        pre_commands = self.subrt_pop_all_pending_commands()
+        built = False
         try:
-            pre_commands = self.subrt_pop_all_pending_commands()
-            loop_register_result = self._loop_get_register(loop_register, activate=True)
             yield loop_register_result
-        finally:
             body_commands = self.subrt_pop_all_pending_commands()
             self._build_cmds_loop(
                 pre_commands=pre_commands,
@@ -2188,6 +2188,13 @@ class Builder:
                 step=step,
                 loop_register=loop_register_result,
             )
+            built = True
+        finally:
+            if not built:
+                # The body, or the loop itself (e.g. a bound without a value), was refused:
+                # what was queued in front of the loop stays queued, the loop is left out.
+                self.subrt_pop_all_pending_commands()
+                self.subrt_add_pending_commands(pre_commands)
             self._mem_mgr.remove_active_register(loop_register_result)
 
     def sdk_loop_body(
@@ -2252,22 +2259,33 @@ class Builder:
         self, max_iterations: int
     ) -> Iterator[SdkLoopUntilContext]:
         """Build commands for a 'loop_until' context and return the context object."""
+        id = self._next_context_id
+        context = SdkLoopUntilContext(id=id, builder=self, max_iterations=max_iterations)
+        self._next_context_id += 1
+        loop_register = self._loop_until_context_enter(id)
+        reg_future = RegFuture(self._connection, loop_register)
+        context.set_loop_register(reg_future)
+        completed = False
         try:
-            id = self._next_context_id
-            context = SdkLoopUntilContext(
-                id=id, builder=self, max_iterations=max_iterations
-            )
-            self._next_context_id += 1
-            loop_register = self._loop_until_context_enter(id)
-            reg_future = RegFuture(self._connection, loop_register)
-            context.set_loop_register(reg_future)
             yield context
+            completed = True
         finally:
-            assert context.exit_condition is not None
-            self._loop_until_context_exit(
-                context_id=id,
-                context=context,
-            )
+            if completed:
+                assert context.exit_condition is not None
+                self._loop_until_context_exit(
+                    context_id=id,
+                    context=context,
+                )
+            else:
+                # The body was refused (its error is passed on as it is): what was queued
+                # in front of the loop stays queued, the loop is left out and its
+                # register is given back.
+                self.subrt_pop_all_pending_commands()
+                self.subrt_add_pending_commands(
+                    self._pre_context_commands.pop(id, [])
+                )
+                for reg in self._pre_context_registers.pop(id, []):
+                    self._mem_mgr.remove_active_register(reg)
 
     @contextmanager
     def sdk_try_context(
